@@ -359,6 +359,8 @@ def run_shape(h, cfile, shape, tier):
     nb = [n for n in r.get('nobody', []) if n not in h.allow_nobody]
     # CBMC 6 reports UNKNOWN for properties that lie behind a failed fatal check: not failures by themselves
     fails = [p for p in r['props'] if p['res'] in ('FAILURE', 'ERROR')]
+    # callees a harness deliberately leaves without a body (their result is arbitrary): CBMC reports each call as a failed 'no body for callee' property
+    fails = [p for p in fails if not (p['desc'].startswith('no body for callee ') and p['desc'].split()[-1] in h.allow_nobody)]
     unknown = [p for p in r['props'] if p['res'] == 'UNKNOWN']
     kinds = {}
     for p in fails:
